@@ -121,3 +121,35 @@ step_harness!(c01_append_step_n1, 1, false);
 step_harness!(c01_append_step_n1_buffered, 1, true);
 step_harness!(c01_append_step_n2, 2, false);
 step_harness!(c01_append_step_n3_t, 3, false);
+
+// ---- C16: the same step, registered under C16 for its counter assertions (partition, topic and
+// stream message counts and sizes move by exactly what was stored) ----
+step_harness!(c16_append_moves_counters_n1, 1, false);
+step_harness!(c16_append_moves_counters_n2, 2, false);
+
+// Segment::get_messages_count equals the number of messages the segment holds, from any start offset
+harness_sync! { #[kani::unwind(5)] fn c16_segment_message_count_matches_content() {
+    typed_arc!(cfg: crate::configs::system::SystemConfig = system_config());
+    let start: u64 = kani::any();
+    kani::assume(start < OFF_MAX);
+    let mut seg = segment(start, cfg.clone());
+    assert!(seg.get_messages_count() == 0); // empty segment, whatever its start offset
+    let n: usize = kani::any();
+    kani::assume(n >= 1 && n <= 3);
+    let b1 = [retained(start, 1, 1, vec![0])];
+    let b2 = [retained(start, 1, 1, vec![0]), retained(start + 1, 2, 2, vec![1])];
+    let b3 = [retained(start, 1, 1, vec![0]), retained(start + 1, 2, 2, vec![1]), retained(start + 2, 3, 3, vec![2])];
+    let r = match n {
+        1 => seg.append_batch(IggyByteSize::from(46u64), 1, &b1),
+        2 => seg.append_batch(IggyByteSize::from(92u64), 2, &b2),
+        _ => seg.append_batch(IggyByteSize::from(138u64), 3, &b3),
+    };
+    assert!(r.is_ok());
+    assert!(seg.get_messages_count() == n as u64, "reported message count differs from what the segment holds");
+    assert!(seg.size_bytes.as_bytes_u64() == 46 * n as u64);
+    assert!(seg.messages_count_of_parent_partition.load(Ordering::SeqCst) == n as u64);
+    assert!(seg.size_of_parent_partition.load(Ordering::SeqCst) == 46 * n as u64);
+    kani::cover!(n == 3 && start > 0, "three messages, later segment");
+    core::mem::forget(seg);
+    core::mem::forget(cfg);
+} }
